@@ -1,7 +1,25 @@
 (* C02 — BGZF virtual positions name bytes: tell / seek / gzi are mutually consistent.
-   Property theorems only. *)
-From Coq Require Import List NArith.
-From NV Require Import Bgzf.Vpos Bgzf.VposProofs.
+   Property theorems only; each is closed by [exact] of a lemma proved in theories/Bgzf and is
+   followed by Print Assumptions.
+
+   Models: NV.Bgzf.Vpos (virtual_position.rs), NV.Bgzf.Gzi (gzi/index.rs), NV.Bgzf.ReaderOps
+   (io/reader.rs + io/block.rs + io/block/data.rs over an already parsed file = list of frames
+   {csize; fdata}), NV.Bgzf.FlatRef (the flat-array reference: offset + window over
+   D = concat of the frames' data, and [denote] : virtual position -> flat offset).
+
+   The pinned reader violates the property on two input classes (both reproduced on the real
+   crate, see known_findings.d/C02.json); the faithful model reproduces them
+   ([c02_seek_eof_refuted], [c02_direct_read_refuted]) and the positive theorem excludes
+   exactly those classes through [ops_ok]:
+     - seek-eof-stale-block: Seek to the end-of-file position unless the buffered block is an
+       empty block whose end names the end of the data ([seek_ok]);
+     - direct-read-at-eof-stale-len: Read n with n >= 65536 when the block is exhausted, no
+       frame is left and the last block read holds data ([stale_direct]); for ReadExact /
+       ReadExactStd the coarser side condition "n < 65536 or the file ends with an empty frame
+       (EOF marker)" is used.
+   Setting ReaderOps.eof_resets_block := true (the proposed repair) removes both. *)
+From Coq Require Import List NArith Bool.
+From NV Require Import Bgzf.Vpos Bgzf.VposProofs Bgzf.Gzi Bgzf.ReaderOps Bgzf.FlatRef Bgzf.ReaderOpsProofs.
 Import ListNotations.
 Open Scope N_scope.
 
@@ -9,7 +27,106 @@ Theorem vpos_pack_unpack : forall c u, u < 65536 -> unpack (pack c u) = (c, u).
 Proof. exact pack_unpack. Qed.
 Print Assumptions vpos_pack_unpack.
 
+(* numeric comparison of virtual positions is positional (lexicographic) comparison *)
 Theorem vpos_order : forall c1 u1 c2 u2, u1 < 65536 -> u2 < 65536 ->
   (pack c1 u1 < pack c2 u2 <-> lex_lt (c1, u1) (c2, u2)).
 Proof. exact pack_order. Qed.
 Print Assumptions vpos_order.
+
+(* For EVERY well-formed frame list f (any number of frames, empty frames anywhere, with or
+   without trailing empty frame, every frame 1 <= csize, data <= 65536 bytes, file shorter than
+   2^48) and EVERY history of reader calls whose seeks name byte boundaries and which stays
+   outside the two known classes: the flat reference accepts the history, every call returns
+   what the flat reference returns, and after every call virtual_position() is Ok v with
+   denote f v = the flat offset. *)
+Theorem c02_reader_refines_flat : forall f ops,
+  wf f -> total_csize f <= MAX_COMPRESSED_POSITION ->
+  ops_ok f (gzi_of f) (init f) ops ->
+  exists fl, frun f (mkF 0 0) ops = Some fl /\
+             Forall2 (agrees f) (run f (gzi_of f) (init f) ops) fl.
+Proof. exact reader_refines_flat. Qed.
+Print Assumptions c02_reader_refines_flat.
+
+(* the statement without the exclusions is false for the pinned reader: *)
+Definition c02_reader_refines_flat_full_statement : Prop := forall f ops,
+  wf f -> total_csize f <= MAX_COMPRESSED_POSITION ->
+  Forall (fun o => match o with
+                   | Seek v => exists j, denote f v = Some j
+                   | SeekU p => seeku_ok f p
+                   | _ => True end) ops ->
+  exists fl, frun f (mkF 0 0) ops = Some fl /\
+             Forall2 (agrees f) (run f (gzi_of f) (init f) ops) fl.
+
+Theorem c02_seek_eof_refuted :
+  run wit_file (gzi_of wit_file) (init wit_file) [Read 5; Seek (pack 61 0); Read 5]
+  = [ (OBytes (Ok [104; 101; 108; 108; 111]), Ok (pack 33 0));
+      (OPos (Ok (pack 61 0)), Ok (pack 0 0));
+      (OBytes (Ok [104; 101; 108; 108; 111]), Ok (pack 33 0)) ].
+Proof. exact seek_eof_stale_witness. Qed.
+Print Assumptions c02_seek_eof_refuted.
+
+Theorem c02_direct_read_refuted :
+  run wit_noeof (gzi_of wit_noeof) (init wit_noeof) [Read 65536; Read 65536]
+  = [ (OBytes (Ok [104; 101; 108; 108; 111]), Ok (pack 33 0));
+      (OBytes (Ok [170; 170; 170; 170; 170]), Ok (pack 33 0)) ].
+Proof. exact direct_read_stale_witness. Qed.
+Print Assumptions c02_direct_read_refuted.
+
+Theorem c02_full_statement_refuted : ~ c02_reader_refines_flat_full_statement.
+Proof. exact full_statement_refuted. Qed.
+Print Assumptions c02_full_statement_refuted.
+
+(* seeking by uncompressed offset through the file's gzi index lands on the same byte; the
+   u16 conversion cannot fail unless the offset is the end of the data and the last frame is a
+   full 65536-byte one *)
+Theorem c02_gzi : forall f p, wf f -> total_csize f <= MAX_COMPRESSED_POSITION ->
+  p <= total_dlen f /\ (p = total_dlen f -> forall q b, f = q ++ [b] -> flen b < 65536) ->
+  exists v, gzi_query (gzi_of f) p = Ok v /\ denote f v = Some p.
+Proof. exact gzi_lands. Qed.
+Print Assumptions c02_gzi.
+
+(* positions told during sequential reading never go backwards in the stream (partial: stated on
+   the denoted flat offsets; the numeric statement v1 <= v2 is checked on the implementation
+   for every non-seek step but not proved here) *)
+Definition c02_tell_monotone_full_statement : Prop := forall f ops st o v1 v2,
+  wf f -> ops_ok f (gzi_of f) (init f) (ops ++ [o]) -> is_seek o = false ->
+  st = run_state f (gzi_of f) (init f) ops ->
+  virtual_position st = Ok v1 -> virtual_position (fst (step f (gzi_of f) st o)) = Ok v2 -> v1 <= v2.
+
+Theorem c02_tell_monotone_partial : forall f ops,
+  wf f -> total_csize f <= MAX_COMPRESSED_POSITION ->
+  ops_ok f (gzi_of f) (init f) ops ->
+  forallb (fun o => negb (is_seek o)) ops = true ->
+  exists fl, Forall2 (agrees f) (run f (gzi_of f) (init f) ops) fl /\ nondecr 0 (map snd fl).
+Proof. exact tell_monotone_flat. Qed.
+Print Assumptions c02_tell_monotone_partial.
+
+(* after a seek to a position naming flat offset j, a read hands out a prefix of the stream from
+   exactly byte j (partial: stated on the flat reference, which the reader refines by
+   c02_reader_refines_flat; read-to-end as a closed form is not proved) *)
+Theorem c02_seek_then_read_partial : forall f s v j s1 x n,
+  fstep f s (Seek v) = Some (s1, x) -> denote f v = Some j ->
+  off s1 = j /\
+  exists k, k <= n /\ snd (f_read (chunks f) s1 n) = Ok (slice (concat (chunks f)) j k).
+Proof. exact flat_seek_then_read. Qed.
+Print Assumptions c02_seek_then_read_partial.
+
+(* non-vacuity: a history with both seek forms and a gzi seek over a two-frame file satisfies
+   the hypotheses, and this is what it observes *)
+Example c02_example_ok :
+  wf wit_file /\ total_csize wit_file <= MAX_COMPRESSED_POSITION /\
+  ops_ok wit_file (gzi_of wit_file) (init wit_file)
+         [Read 3; Seek (pack 0 5); FillBuf; Seek (pack 33 0); SeekU 2; ReadExact 3; Read 70000].
+Proof. exact example_ok. Qed.
+
+Example c02_example_run :
+  run wit_file (gzi_of wit_file) (init wit_file)
+      [Read 3; Seek (pack 0 5); FillBuf; Seek (pack 33 0); SeekU 2; ReadExact 3; Read 70000]
+  = [ (OBytes (Ok [104; 101; 108]), Ok (pack 0 3));
+      (OPos (Ok (pack 0 5)), Ok (pack 33 0));
+      (OBytes (Ok []), Ok (pack 61 0));
+      (OPos (Ok (pack 33 0)), Ok (pack 61 0));
+      (OPos (Ok 2), Ok (pack 0 2));
+      (OBytes (Ok [108; 108; 111]), Ok (pack 33 0));
+      (OBytes (Ok []), Ok (pack 61 0)) ].
+Proof. vm_compute. reflexivity. Qed.
